@@ -502,8 +502,6 @@ def pred(case, out):
         if b not in seen: seen.append(b)
     return seen[:10]
 
-def _pred_gs(case, out): return []
-def _pred_fit(case, out): return []
 
 # ------------------------------------------------------------------------------------------------ Coq emitter
 def _q(x): return E.q(F(x))
@@ -614,5 +612,162 @@ def emit_case(case, out):
     if "exc" in out: return "false"
     return {"lin": _emit_lin, "gs": _emit_gs, "fit": _emit_fit}[case["kind"]](case, out)
 
-def _emit_gs(case, out): return None
-def _emit_fit(case, out): return None
+
+
+# ------------------------------------------------------------------------------------------------ gauss_seidel / rrBLUP
+def _gen_gs(rng, big=False):
+    p = rng.choice([1, 2, 2, 3, 3, 4]) if not big else rng.randint(1, 6)
+    kind = rng.choice(["spd", "spd", "sym", "any", "diag"])
+    if kind == "spd":                                   # Z'Z + ridge I of a small integer design
+        n = rng.randint(1, 5)
+        Zs = [[rng.randint(0, 2) for _ in range(p)] for _ in range(n)]
+        ridge = rng.choice([0.25, 0.5, 1.0, 2.0, 8.0])
+        A = [[float(sum(Zs[k][i] * Zs[k][j] for k in range(n))) + (ridge if i == j else 0.0) for j in range(p)] for i in range(p)]
+    elif kind == "diag":
+        A = [[(rng.choice([-1, 1]) * rng.randint(1, 16) / 4 if i == j else 0.0) for j in range(p)] for i in range(p)]
+    else:
+        A = [[rng.randint(-16, 16) / 4 for _ in range(p)] for _ in range(p)]
+        if kind == "sym":
+            for i in range(p):
+                for j in range(i): A[i][j] = A[j][i]
+        for i in range(p):
+            if A[i][i] == 0.0 and rng.random() < 0.9: A[i][i] = rng.choice([-1, 1]) * rng.randint(1, 16) / 4
+    b = [_g(rng, den=4, lim=32, pzero=0.15) for _ in range(p)]
+    atol = rng.choice([0.0, 2.0 ** -20, 2.0 ** -8, 2.0 ** -4, 0.25, 1.0, 1e-8])
+    maxiter = rng.choice([0, 1, 1, 2, 3, 4, 5, 6]) if not big else rng.randint(0, 9)
+    return {"kind": "gs", "A": A, "b": b, "atol": atol, "maxiter": maxiter}
+
+def _gs_exact(A, b, atol, maxiter, cap=None):
+    """harness-side exact replica of the loop, used to (i) state the predicate, (ii) count sweeps for the emit decision"""
+    p = len(b); x = [F(0)] * p; n = 0
+    go = 2 * atol > atol
+    while go and n < maxiter:
+        if cap is not None and n >= cap: return None, n
+        prev = list(x)
+        for i in range(p):
+            if A[i][i] == 0: return None, n
+            x[i] = (b[i] - sum((A[i][j] * x[j] for j in range(p) if j != i), F(0))) / A[i][i]
+        go = any(abs(a - c) > atol for a, c in zip(x, prev)); n += 1
+    return x, n
+
+def _qf(A, b, x):
+    p = len(b)
+    return F(1, 2) * sum((x[i] * A[i][j] * x[j] for i in range(p) for j in range(p)), F(0)) - sum((b[i] * x[i] for i in range(p)), F(0))
+
+def _pred_gs(case, out):
+    bad = []
+    A = _FM(case["A"]); b = [F(v) for v in case["b"]]; atol = F(case["atol"]); p = len(b)
+    x = [_fr(h) for h in out["x"]]
+    if len(x) != p: return ["gauss_seidel returned %d values for %d unknowns" % (len(x), p)]
+    if not out["unchanged"]: bad.append("gauss_seidel modified A or b")
+    if any(A[i][i] == 0 for i in range(p)):
+        if case["maxiter"] > 0 and atol > 0 and all(v is not None for v in x): bad.append("finite result with a zero pivot")
+        return bad
+    if any(v is None for v in x): return ["gauss_seidel returned a non-finite value"]
+    if case["maxiter"] == 0 or not (2 * atol > atol):
+        if any(v != 0 for v in x): bad.append("no sweep may run, yet the result is not the zero vector")
+        return bad
+    want, n = _gs_exact(A, b, atol, case["maxiter"])
+    if not all(_close(v, w, F(1, 2 ** 30)) for v, w in zip(x, want)): bad.append("result differs from %d exact Gauss-Seidel sweeps" % n)
+    sym = all(A[i][j] == A[j][i] for i in range(p) for j in range(p))
+    if sym and all(A[i][i] > 0 for i in range(p)):
+        f = _qf(A, b, x)
+        if f > F(1, 2 ** 30) * (1 + sum((abs(v) for v in b), F(0))): bad.append("criterion 1/2 x'Ax - b'x increased above its value at zero")
+    return bad
+
+def _emit_gs(case, out):
+    x = out["x"]
+    impl = "None" if any(_fr(h) is None for h in x) else "(Some %s)" % E.lst(x, _qh)
+    return "(opt_eqb qclose_l %s (gauss_seidel %s %s %s %d%%nat) && %s)" % (
+        impl, _qm(case["A"]), E.lst(case["b"], _q), _q(case["atol"]), case["maxiter"], E.b(out["unchanged"]))
+
+def _gen_fit(rng, big=False):
+    n = rng.randint(3, 9) if not big else rng.randint(3, 16)
+    p = rng.randint(1, 4) if not big else rng.randint(1, 6)
+    t = rng.choice([1, 1, 2])
+    ploidy = 2
+    Z = [[rng.randint(0, 2) for _ in range(p)] for _ in range(n)]
+    r = rng.random()
+    if r < 0.5:                                             # monomorphic columns (at 0, 1 or 2), but never all of them
+        for j in rng.sample(range(p), rng.randint(1, p)):
+            v = rng.randint(0, 2)
+            for row in Z: row[j] = v
+    if rng.random() < 0.1 and p >= 2:                        # identical polymorphic markers
+        for row in Z: row[1] = row[0]
+    if all(all(row[j] == Z[0][j] for row in Z) for j in range(p)):
+        j = rng.randrange(p); Z[0][j] = (Z[1][j] + 1) % 3
+    Y = [[rng.randint(-64, 64) / 8 for _ in range(t)] for _ in range(n)]
+    if rng.random() < 0.15:                                  # a trait determined exactly by one marker
+        for i in range(n): Y[i][0] = 1.5 * Z[i][0] - 2.0
+        if all(Y[i][0] == Y[0][0] for i in range(n)): Y[0][0] += 1.0
+    for k in range(t):                                       # a constant response has no variance to fit
+        if all(Y[i][k] == Y[0][k] for i in range(n)): Y[0][k] += 0.5
+    trait = None if rng.random() < 0.5 else ["tr%d" % i for i in range(t)]
+    return {"kind": "fit", "Y": Y, "Z": Z, "trait": trait, "via": rng.choice(["fit_numpy", "fit_numpy", "fit", "fit_raw"]), "ploidy": ploidy}
+
+GS_ATOL = 1e-8
+GS_MAXITER = 1000
+RERUN_CAP = 14          # the exact re-run inside Coq is emitted when Gauss-Seidel needs at most this many sweeps
+
+def _fit_parts(case, out, k):
+    """exact quantities of trait k: polymorphic design, centred response, penalised normal equations for the implementation's ridge"""
+    Z = case["Z"]; n = len(Z); p = len(Z[0])
+    y = [F(case["Y"][i][k]) for i in range(n)]
+    mask = [any(Z[i][j] != Z[0][j] for i in range(n)) for j in range(p)]
+    Zp = [[F(Z[i][j]) for j in range(p) if mask[j]] for i in range(n)]
+    pp = sum(mask)
+    mu = sum(y, F(0)) / n
+    yc = [v - mu for v in y]
+    ridge = _fr(out["comps"][k]["ridge"])
+    A = [[sum((Zp[i][a] * Zp[i][c] for i in range(n)), F(0)) + (ridge if a == c else 0) for c in range(pp)] for a in range(pp)]
+    b = [sum((Zp[i][a] * yc[i] for i in range(n)), F(0)) for a in range(pp)]
+    return mask, Zp, pp, mu, yc, ridge, A, b
+
+def _pls(Zp, yc, u, ridge):
+    return sum(((yc[i] - sum((Zp[i][a] * u[a] for a in range(len(u))), F(0))) ** 2 for i in range(len(yc))), F(0)) + ridge * sum((v * v for v in u), F(0))
+
+def _pred_fit(case, out):
+    bad = []
+    Z = case["Z"]; n = len(Z); p = len(Z[0]); t = len(case["Y"][0])
+    if out["cls"] != "rrBLUPModel0": bad.append("fit returned a %s" % out["cls"])
+    if out["trait"] != case["trait"]: bad.append("trait names not carried by the fitted model")
+    if not out["unchanged"]: bad.append("fit modified its inputs")
+    if len(out["beta"]) != 1 or len(out["beta"][0]) != t or len(out["u_a"]) != p or out["u_misc_shape"] != [0, t]:
+        return bad + ["fitted coefficient shapes are wrong"]
+    for k in range(t):
+        mask, Zp, pp, mu, yc, ridge, A, b = _fit_parts(case, out, k)
+        beta = _fr(out["beta"][0][k]); u = [_fr(out["u_a"][j][k]) for j in range(p)]
+        if beta is None or any(v is None for v in u) or ridge is None or ridge <= 0:
+            bad.append("non-finite estimate for trait %d" % k); continue
+        if not _close(beta, mu): bad.append("intercept of trait %d is not the training mean" % k)
+        if any(u[j] != 0 for j in range(p) if not mask[j]): bad.append("a monomorphic marker has a non-zero effect (trait %d)" % k)
+        up = [u[j] for j in range(p) if mask[j]]
+        c0 = _pls(Zp, yc, [F(0)] * pp, ridge)
+        if _pls(Zp, yc, up, ridge) > c0 + F(1, 2 ** 30) * (1 + c0): bad.append("penalised least-squares criterion worse than the all-zero solution (trait %d)" % k)
+        if n > pp:
+            for i in range(pp):
+                res = sum((A[i][j] * up[j] for j in range(pp)), F(0)) - b[i]
+                if abs(res) > F(GS_ATOL) * sum((abs(A[i][j]) for j in range(i + 1, pp)), F(0)) + EPS40 * (1 + abs(b[i])):
+                    bad.append("penalised normal equations not solved to the solver's tolerance although n > p (trait %d)" % k); break
+        # the fitted model predicts with exactly these coefficients
+    gv = out["gebv_numpy"]
+    for i in range(n):
+        for k in range(t):
+            w = sum((F(Z[i][j]) * _fr(out["u_a"][j][k]) for j in range(p)), F(0))
+            if not _close(_fr(gv[i][k]), w): bad.append("gebv_numpy of the fitted model != Z u_a"); break
+    return bad
+
+def _emit_fit(case, out):
+    Z = case["Z"]; n = len(Z); p = len(Z[0]); t = len(case["Y"][0])
+    if len(out["beta"]) != 1 or len(out["beta"][0]) != t or len(out["u_a"]) != p: return "false"
+    parts = []
+    for k in range(t):
+        beta = _fr(out["beta"][0][k]); u = [_fr(out["u_a"][j][k]) for j in range(p)]; ridge = _fr(out["comps"][k]["ridge"])
+        if beta is None or ridge is None or any(v is None for v in u): return "false"
+        y = E.lst([case["Y"][i][k] for i in range(n)], _q)
+        parts.append("rr_clauses %d%%nat Zg %s %s %s %s %s true" % (p, y, E.q(ridge), _q(GS_ATOL), E.q(beta), E.lst(u, E.q)))
+        mask, Zp, pp, mu, yc, rdg, A, b = _fit_parts(case, out, k)
+        x, sweeps = _gs_exact(A, b, F(GS_ATOL), GS_MAXITER, cap=RERUN_CAP)
+        if x is not None:
+            parts.append("rr_rerun_agrees %d%%nat Zg %s %s %s %d%%nat %s %s" % (p, y, E.q(ridge), _q(GS_ATOL), GS_MAXITER, E.q(beta), E.lst(u, E.q)))
+    return "(let Zg := %s in\n (%s))" % (E.lst2(Z, E.z), "\n   && ".join(parts))
